@@ -780,7 +780,14 @@ func (s *inProcessClientStream) recvMsgLocked(m interface{}, lastMessage bool) e
 }
 
 func (s *inProcessClientStream) ensureNoMoreLocked(m interface{}) error {
-	mCopy := reflect.New(reflect.TypeOf(m).Elem()).Interface()
+	// scratch destination for a possible second message: a clone of the message
+	// just received rather than a zero value of its type, which is not usable
+	// for every message type (a zero dynamic message has no descriptor and
+	// copying into it panics)
+	mCopy, cloneErr := s.cloner.Clone(m)
+	if cloneErr != nil {
+		mCopy = reflect.New(reflect.TypeOf(m).Elem()).Interface()
+	}
 	err := s.recvMsgLocked(mCopy, false)
 	if err == nil {
 		s.last = &frame{err: status.Error(codes.Internal, "method should return 1 response message but server sent >1")}
